@@ -537,6 +537,14 @@ def coherent(c: dict, plain: bool = False) -> bool:
     return c["spe"] + 2 * sl <= c["dup"] + 2 * c["floss"]
 
 
+def coherence_signature(f) -> bool:
+    """what the known finding F-COHERENCE looks like on a generated case: the property's oracle rejects the answer BECAUSE a
+    returned cost is not the minimum (or the optimal set differs as a consequence); a crash, an invalid solution, duplicates or
+    solutions returned although none exists are never covered by it"""
+    d = f.detail or ""
+    return f.oracle_ok is False and any(t in d for t in ("the minimum is", "the minimum over all labellings is", "the optimal set has"))
+
+
 def ucoherent(c: dict) -> bool:
     """the region the UNORDERED solvers' theorems need (wider than `coherent`): spe + sloss <= dup + 2 floss"""
     return c["spe"] + c["sloss"] <= c["dup"] + 2 * c["floss"]
